@@ -104,6 +104,7 @@ class VirtualPool:
     """Deterministic Pool replacement; ``VirtualPool.order`` must be set to the completion order to enact."""
     order = None
     constructed = 0
+    mismatch = 0
     log = None
 
     def __init__(self, processes=None, *a, **k):
@@ -132,7 +133,10 @@ class VirtualPool:
         n = len(tasks)
         order = list(VirtualPool.order) if VirtualPool.order is not None else list(range(n))
         if sorted(order) != list(range(n)):
-            raise HarnessError('VirtualPool: schedule %s does not fit %d tasks' % (order, n))
+            # the implementation dispatches another number of tasks than the model assumes (e.g. it batches rows):
+            # the schedule does not apply; run in submission order and say so (never an alarm by itself)
+            VirtualPool.mismatch += 1
+            order = list(range(n))
         results = {}
         for t in order:
             f, x = pickle.loads(tasks[t])
@@ -207,6 +211,7 @@ class patched_pool:
         gf.cpu_count = lambda: self.ncpu
         VirtualPool.order = self.order
         VirtualPool.constructed = 0
+        VirtualPool.mismatch = 0
         VirtualPool.log = []
         return self
 
